@@ -144,8 +144,22 @@ func ruleOptionPropagation(w *World, r *Report) {
 					return false
 				}
 				for _, a := range condAtoms(iff.Cond, idx == 0) {
-					if bo, ok := a.V.(*ssa.BinOp); ok && bo.Op == token.EQL && a.Truth && (bo.X == ssa.Value(m.Params[1]) || bo.Y == ssa.Value(m.Params[1])) {
-						return true
+					if bo, ok := a.V.(*ssa.BinOp); ok && (bo.X == ssa.Value(m.Params[1]) || bo.Y == ssa.Value(m.Params[1])) {
+						if (bo.Op == token.EQL && a.Truth) || (bo.Op == token.NEQ && !a.Truth) {
+							return true // name == one of its own constants
+						}
+					}
+					// a lookup helper keyed by the name that found something: helper(name) != nil
+					if x, isNil, isT := nilTest(a.V); isT && isNil != a.Truth {
+						if hc, ok := x.(*ssa.Call); ok {
+							if cal := hc.Common().StaticCallee(); cal != nil && w.InModule(cal) {
+								for _, arg := range hc.Common().Args {
+									if arg == ssa.Value(m.Params[1]) {
+										return true
+									}
+								}
+							}
+						}
 					}
 				}
 				return false
@@ -162,35 +176,94 @@ func ruleOptionPropagation(w *World, r *Report) {
 	r.Expect("hand-written SetOption methods on types embedding html.Config", n, 1)
 
 	r.Rule("C10-Pc", "Writer/reader agreement: for every option type with SetConfig (stores Options[k]) and SetHTMLOption (stores field F directly), (*html.Config).SetOption has a case for the same constant k that stores into the same field F.")
+	// which receiver field a given option name reaches: the method is explored once per option-name constant it
+	// compares its name parameter with, following only the edges that name selects (so a switch, an if chain, a
+	// filter-then-else chain or a comma-ok assertion inside an arm all look the same)
 	caseField := map[string]string{}
-	for _, b := range baseSet.Blocks {
-		iff, ok := b.Instrs[len(b.Instrs)-1].(*ssa.If)
-		if !ok {
-			continue
+	nameP := ssa.Value(baseSet.Params[1])
+	nameConsts := map[string]bool{}
+	cmpOf := func(v ssa.Value) (string, token.Token, bool) {
+		bo, ok := v.(*ssa.BinOp)
+		if !ok || (bo.Op != token.EQL && bo.Op != token.NEQ) {
+			return "", 0, false
 		}
-		bo, ok := iff.Cond.(*ssa.BinOp)
-		if !ok || bo.Op != token.EQL {
-			continue
-		}
-		var k string
-		if s, ok := constString(bo.Y); ok && bo.X == ssa.Value(baseSet.Params[1]) {
-			k = s
-		} else if s, ok := constString(bo.X); ok && bo.Y == ssa.Value(baseSet.Params[1]) {
-			k = s
-		} else {
-			continue
-		}
-		for _, blk := range baseSet.Blocks {
-			if !edgeDominates(b, 0, blk) {
-				continue // the arm of this case: also the blocks of a comma-ok assertion inside it
+		if bo.X == nameP {
+			if c, ok := constString(bo.Y); ok {
+				return c, bo.Op, true
 			}
-			for _, ins := range blk.Instrs {
+		}
+		if bo.Y == nameP {
+			if c, ok := constString(bo.X); ok {
+				return c, bo.Op, true
+			}
+		}
+		return "", 0, false
+	}
+	for _, b := range baseSet.Blocks {
+		if iff, ok := b.Instrs[len(b.Instrs)-1].(*ssa.If); ok {
+			if c, _, ok := cmpOf(iff.Cond); ok {
+				nameConsts[c] = true
+			}
+		}
+	}
+	for k := range nameConsts {
+		seen := map[*ssa.BasicBlock]bool{}
+		var fields []string
+		var dfs func(b *ssa.BasicBlock)
+		dfs = func(b *ssa.BasicBlock) {
+			if seen[b] {
+				return
+			}
+			seen[b] = true
+			for _, ins := range b.Instrs {
 				if st, ok := ins.(*ssa.Store); ok {
 					if fa, ok := st.Addr.(*ssa.FieldAddr); ok && fa.X == ssa.Value(baseSet.Params[0]) {
 						_, f := fieldOfAddr(fa)
-						caseField[k] = f.Name()
+						fields = append(fields, f.Name())
 					}
 				}
+			}
+			if iff, ok := b.Instrs[len(b.Instrs)-1].(*ssa.If); ok && len(b.Succs) == 2 {
+				if c, op, ok := cmpOf(iff.Cond); ok {
+					truth := (c == k) == (op == token.EQL)
+					if truth {
+						dfs(b.Succs[0])
+					} else {
+						dfs(b.Succs[1])
+					}
+					return
+				}
+			}
+			for _, s := range b.Succs {
+				dfs(s)
+			}
+		}
+		dfs(baseSet.Blocks[0])
+		// the field stored for this name and for no other name
+		for _, f := range fields {
+			caseField[k+"\x00"+f] = f
+		}
+	}
+	// fields reached under exactly one name identify that name's arm
+	byName := map[string][]string{}
+	for kf, f := range caseField {
+		byName[strings.SplitN(kf, "\x00", 2)[0]] = append(byName[strings.SplitN(kf, "\x00", 2)[0]], f)
+	}
+	fieldNames := map[string]int{}
+	for _, fs := range byName {
+		seenF := map[string]bool{}
+		for _, f := range fs {
+			if !seenF[f] {
+				seenF[f] = true
+				fieldNames[f]++
+			}
+		}
+	}
+	caseField = map[string]string{}
+	for k, fs := range byName {
+		for _, f := range fs {
+			if fieldNames[f] == 1 {
+				caseField[k] = f
 			}
 		}
 	}
